@@ -1,30 +1,123 @@
-(* C01 - PLACEHOLDER statement file (the theorems C01_step / C01_reach / C01_meaning are written by the
-   proof task); it only pins down, by computation, that the model and the boolean invariant are not vacuous. *)
-From PJ Require Import Base.Prelude Graph.Model Graph.Invariant.
+(* C01 - "After any sequence of public mutations of tasks and WBSs ..., and whether each call returns or raises,
+   the hierarchy is a forest: every task is listed exactly once among the children of exactly the task it
+   reports as parent, and no task is its own ancestor.  Dependency links are symmetric, contain no cycle or
+   self-link, and never connect a task with one of its own ancestors or descendants."
+
+   Statement file: every theorem is proved in Graph/StepProofs.v (and the files it assembles).
+   * A "public" call (pub_args, a boolean of Graph/Model.v) names only objects a Python caller can hold:
+     allocated task objects, never the hidden root task of a WBS - except as the owner of a children list
+     (wbs.roots = ..., wbs.roots.append(t), wbs // x).  The harness evaluates pub_args on every generated
+     call (Graph/Check.v, clause 98).  Arguments are otherwise unrestricted: self references, repeats, None,
+     tasks of other trees and WBSs.
+   * step returns the state after the call whether it returned or raised; WF holds of it in both cases. *)
+From PJ Require Import Base.Prelude Graph.Model Graph.Invariant Graph.OracleProofs Graph.StepProofs.
+From PJ Require Import Graph.LinksProofs.
 Local Open Scope nat_scope.
 
-(* a concrete history: one WBS, three tasks (ids 1, 2, 1), task 2 below task 1 in the WBS, a dependency *)
+(* ---- one call, any of the 24 operation kinds, accepted or rejected ---- *)
+Theorem C01_step : forall s o, WF s -> pub_args s o = true -> WF (fst (step s o)).
+Proof. exact StepProofs.step_WF. Qed.
+
+(* objects obtained earlier stay what they were (allocated, hidden or not), WBSs keep their number: a call that
+   is public now is public in every later state, so "public history" is a property of the calls alone *)
+Theorem C01_step_shape : forall s o, WF s -> pub_args s o = true -> shape s (fst (step s o)).
+Proof. exact StepProofs.step_shape. Qed.
+
+Theorem C01_public_stays_public : forall s s' o, shape s s' -> pub_args s o = true -> pub_args s' o = true.
+Proof. exact StepProofs.pub_args_shape. Qed.
+
+(* ---- histories ---- *)
+Theorem C01_run : forall ops s, WF s -> pub_run s ops -> WF (run s ops).
+Proof. exact StepProofs.run_WF. Qed.
+
+Theorem C01_reach : forall ops, pub_run init ops -> WF (run init ops).
+Proof. exact StepProofs.reach_WF. Qed.
+
+(* at every intermediate state *)
+Theorem C01_prefixes : forall ops n, pub_run init ops -> WF (run init (firstn n ops)).
+Proof. exact StepProofs.reach_prefixes_WF. Qed.
+
+Theorem C01_pub_run_unfold : forall s o r,
+  pub_run s (o :: r) <-> pub_args s o = true /\ pub_run (fst (step s o)) r.
+Proof. exact StepProofs.pub_run_cons. Qed.
+
+(* ---- what WF says, in the words of the property, over the public view (Task.parent masks the hidden root) ---- *)
+Theorem C01_meaning : forall s, WF s ->
+  let h := hp s in
+  (forall t q, In t (kids (get h q)) ->
+     pub s t /\ (pub s q \/ exists w, w < length (wroots s) /\ q = wroot s w)) /\
+  (forall t q, pub s q -> (In t (kids (get h q)) <-> pubpar h t = Some q)) /\
+  (forall t w, w < length (wroots s) ->
+     (In t (kids (get h (wroot s w))) <-> pub s t /\ pubpar h t = None /\ own (get h t) = Some w)) /\
+  (forall t, pubpar h t = None -> own (get h t) = None -> forall q, ~ In t (kids (get h q))) /\
+  (forall q, NoDup (kids (get h q))) /\
+  (forall t p, pubpar h t = Some p -> pub s t /\ pub s p) /\
+  (forall t, ~ Anc h t t) /\ (forall t, ~ PAnc h t t) /\
+  (forall a b, In b (preds (get h a)) <-> In a (succs (get h b))) /\
+  (forall a, NoDup (preds (get h a)) /\ NoDup (succs (get h a))) /\
+  (forall a b, In b (preds (get h a)) -> pub s a /\ pub s b) /\
+  (forall t, ~ Dep h t t) /\
+  (forall a, ~ In a (preds (get h a)) /\ ~ In a (succs (get h a))) /\
+  (forall a b, In b (preds (get h a)) \/ In b (succs (get h a)) ->
+     ~ Anc h a b /\ ~ Anc h b a /\ ~ PAnc h a b /\ ~ PAnc h b a).
+Proof. exact StepProofs.WF_public_view. Qed.
+
+(* the ancestors Task.all_parents reports are ancestors of the raw relation *)
+Theorem C01_public_ancestors : forall h x a, PAnc h x a -> Anc h x a.
+Proof. exact StepProofs.PAnc_Anc. Qed.
+
+(* ---- the oracle evaluated on the implementation's snapshots ---- *)
+Theorem C01_oracle : forall s, wf_b s = true <-> WF s.
+Proof. exact OracleProofs.wf_b_spec. Qed.
+
+(* ---- non-vacuity ---- *)
+(* an 8-step public history: a WBS (hidden root 0) with the three-level tree 1 > 2 > 3 (3 is constructed with
+   parent=2), task 4 constructed with predecessors=[3]; the last call, 3.predecessors = [1] (an ancestor), is
+   rejected with RuntimeError.  WF holds at every prefix by C01_prefixes; here also by computation. *)
+Example C01_nonvacuous :
+  pub_run init c01_ops /\ length c01_ops = 8 /\
+  map (fun n => outcome_code (snd (step (run init (firstn n c01_ops)) (nth n c01_ops NewWbs)))) (seq 0 8)
+    = [0; 0; 0; 0; 0; 0; 0; 1] /\
+  (let s := run init c01_ops in
+   wroots s = [0] /\ wbs_tasks s 0 = Ok [1; 2; 3] /\
+   map (fun x => pubpar (hp s) x) [1; 2; 3; 4] = [None; Some 1; Some 2; None] /\
+   preds (get (hp s) 4) = [3] /\ succs (get (hp s) 3) = [4] /\ preds (get (hp s) 3) = []) /\
+  forallb (fun n => wf_b (run init (firstn n c01_ops))) (seq 0 9) = true.
+Proof. vm_compute. repeat split; reflexivity. Qed.
+
+(* the earlier demo history: one WBS, three tasks (ids 1, 2, 1), task 2 below task 1 in the WBS, a dependency *)
 Definition demo_ops : list op :=
   [NewWbs; NewTask 1%Z None [] None; NewTask 2%Z None [] None; NewTask 1%Z None [] None;
    ChAppend 0 (Some 1); SetParent 2 (Some 1); SetLinks true 3 [Some 2]].
 Definition demo : state := run init demo_ops.
-(* the invariant holds after the history, and at every prefix *)
-Example C01_demo_wf :
-  forallb (fun n => wf_b (run init (firstn n demo_ops))) (seq 0 8) = true.
-Proof. vm_compute. reflexivity. Qed.
 
-(* ... and it is not trivially true: a task that names a parent which does not list it *)
+Example C01_demo_wf :
+  pub_run init demo_ops /\ forallb (fun n => wf_b (run init (firstn n demo_ops))) (seq 0 8) = true.
+Proof. vm_compute. split; reflexivity. Qed.
+
+(* ... and the oracle is not trivially true: a task that names a parent which does not list it *)
 Example C01_illformed_rejected_by_wf_b :
   wf_b (mkS [mkT 1%Z None [] [] [] None false None [] None; mkT 2%Z (Some 0) [] [] [] None false None [] None] []) = false.
 Proof. vm_compute. reflexivity. Qed.
 
 (* the guards answer RuntimeError on a self parent, a descendant as parent, an ancestor as dependency, a cycle *)
 Example C01_demo_rejections :
-  map (fun o => outcome_code (snd (step demo o)))
+  map (fun o => (pub_args demo o, outcome_code (snd (step demo o))))
       [SetParent 1 (Some 1); SetParent 1 (Some 2); SetLinks true 2 [Some 1]; SetLinks false 3 [Some 2]; SetParent 3 (Some 2)]
-  = [1; 1; 1; 1; 1].
+  = [(true, 1); (true, 1); (true, 1); (true, 1); (true, 1)].
 Proof. vm_compute. reflexivity. Qed.
 
+Print Assumptions C01_step.
+Print Assumptions C01_step_shape.
+Print Assumptions C01_public_stays_public.
+Print Assumptions C01_run.
+Print Assumptions C01_reach.
+Print Assumptions C01_prefixes.
+Print Assumptions C01_pub_run_unfold.
+Print Assumptions C01_meaning.
+Print Assumptions C01_public_ancestors.
+Print Assumptions C01_oracle.
+Print Assumptions C01_nonvacuous.
 Print Assumptions C01_demo_wf.
 Print Assumptions C01_illformed_rejected_by_wf_b.
 Print Assumptions C01_demo_rejections.
